@@ -34,7 +34,11 @@ def main():
     child = None
     if out == 'timeout' and spec.get('fork_on_hang'):
         # a helper the test starts for its real work; with 'setsid' in a session / process group of its own (timeout(1), setsid(1), job control)
-        child = subprocess.Popen(['sleep', '300'], start_new_session=(spec.get('fork_on_hang') == 'setsid')).pid
+        if spec.get('fork_on_hang') == 'term-proof':
+            # a helper that ignores SIGTERM (an ignored signal stays ignored across exec)
+            child = subprocess.Popen(['sh', '-c', 'trap "" TERM; exec sleep 300']).pid
+        else:
+            child = subprocess.Popen(['sleep', '300'], start_new_session=(spec.get('fork_on_hang') == 'setsid')).pid
     rec = {'pid': os.getpid(), 'cwd': os.getcwd(), 'manifest': manifest, 'verdict': out, 'child': child,
            'contents': [c.decode('latin-1') for c in contents]}
     with open(spec['log'], 'a') as f:
